@@ -342,3 +342,21 @@ def run_qtt(case, ctx, g):
         ctx.count('qtt_roundtrip')
         z = ctx.lib('qtt_to_tens', lambda t: t.qtt_to_tens(list(N)), y)
         judge(ctx, 'qtt_to_tens/tensor', 'qtt_to_tens(%s) after ' % N + what, info, z, dx, 1e-12 if eps is None else eps, N, None, ('qtt_to_tens', tuple(N), eps, ms, case['vals'], case['dtype']))
+        # other groupings of the same QTT modes: a size-1 mode folded into its right / left neighbour, two neighbouring modes merged
+        alts = []
+        for i_, n_ in enumerate(N):
+            if n_ == 1 and len(N) > 1:
+                alts.append(N[:i_] + N[i_ + 1:])
+        if len(N) >= 2:
+            j_ = case['seed'] % (len(N) - 1)
+            alts.append(N[:j_] + [N[j_] * N[j_ + 1]] + N[j_ + 2:])
+        for T_ in alts[:3]:
+            if not T_ or dn.prod(T_) != dn.prod(N):
+                continue
+            ctx.count('qtt_to_tens/regrouped')
+            z2 = ctx.lib('qtt_to_tens', lambda t: t.qtt_to_tens(list(T_)), y)
+            if isinstance(z2, Raised) and z2.type in ('ShapeMismatch', 'InvalidArguments'):
+                ctx.count('qtt_to_tens/regrouping-rejected-by-the-library')      # e.g. a trailing size-1 QTT mode cannot be folded backwards: a documented error, not a wrong value
+                continue
+            judge(ctx, 'qtt_to_tens/tensor/regrouped', 'qtt_to_tens(%s) after ' % T_ + what, info, z2, dx.reshape(T_), 1e-12 if eps is None else eps, T_, None,
+                  ('qtt_to_tens', tuple(N), tuple(T_), eps, ms, case['vals'], case['dtype']))
